@@ -15,7 +15,8 @@
      NextEpoch(d)     epoch start: earliest epoch advances (EpochsToSave), RemoveOldEpochPayments,
                       badge timers fire, relay cache reset; d = downtime factor the finished epoch ends with
      NextBlock        one more block inside the epoch (relay cache reset, badge timers)
-     Down             a block that arrives late: downtime recorded for the current epoch
+     Down(df, ev)     a block that arrives late ("down": one epoch duration, "bigdown": six): downtime recorded
+                      for the current epoch, whose factor can then exceed that of finished epochs
 
    The world (accounts, projects, policies, stakes) is the fixed one built by harness/t/payments:
      subscription c1 (plan: TotalCuLimit 1000, EpochCuLimit 200) with projects
